@@ -11,10 +11,15 @@ def _width_tree_ok(t, min_leaf, max_leaf):
         return False, desc
     x = t0[2] if const_val(t0[3]) == 1 else t0[3]
     x = strip_casts(x)
-    if not (x[0] == "call" and x[1].endswith("::ilog2")):
+    if not (x[0] == "call" and (x[1].endswith("::ilog2") or x[1].endswith("::checked_ilog2"))):
         return False, desc
     r = strip(x[2][0])
     return _range_tree_ok(r, min_leaf, max_leaf), desc
+
+
+def _self_guarded(t):
+    """the width is taken from checked_ilog2, which is None exactly for a range <= 0 (the zero-width case)"""
+    return any(x[0] == "call" and x[1].endswith("::checked_ilog2") for x in leaves(strip(t)))
 
 
 def _range_tree_ok(r, min_leaf, max_leaf):
@@ -35,6 +40,7 @@ def width_formula(ctx, prog, rule):
     ret = R.local(0)
     alts = ret[1] if ret[0] == "phi" else (ret,)
     ok_w, ok_zero = False, False
+    checked_guard = False
     descs = []
     for a in alts:
         if const_val(a) == 0:
@@ -43,6 +49,8 @@ def width_formula(ctx, prog, rule):
         ok, d = _width_tree_ok(a, ("param", 1), ("param", 2))
         descs.append(d)
         ok_w = ok_w or ok
+        if ok and _self_guarded(a):
+            checked_guard = True
     # guard range > 0
     guard = False
     for bi in f.cfg():
@@ -54,6 +62,7 @@ def width_formula(ctx, prog, rule):
                 other = d[2] if const_val(d[3]) == 0 else d[3]
                 guard = _range_tree_ok(other, ("param", 1), ("param", 2))
     n += 1
+    guard = guard or checked_guard
     ctx.ob(rule, "width/record::integer_bits", ok_w and ok_zero and guard,
            "integer_bits = %s, else 0 under a test of the i128 range against 0 (%s)" % (descs, guard), where="%s:%d" % (f.span["file"], f.span["l0"]))
     # reader: BitPack::unpack_ints / unpack_scaled_ints (stream=arg1, min=arg2, max=arg3)
